@@ -98,6 +98,17 @@ def place_{where}_{sn}_{vl}(s: str{extra}) -> bool:
 def replay_place_{where}_{sn}_{vl}(s{hdr}):
     return replay_attr_place(s, {kl}, {vs}, {vl}, "{where}"{hdr})
 """)
+    out.append('''
+def nest_begline(o0: bool, o1: bool, o2: bool, o3: bool, o4: bool, o5: bool) -> bool:
+    """
+    post: _
+    """
+    return begline_nesting(o0, o1, o2, o3, o4, o5)
+
+
+def replay_nest_begline(o0, o1, o2, o3, o4, o5):
+    return replay_begline_nesting(o0, o1, o2, o3, o4, o5)
+''')
     # `|` inside links, templates, parameter references and parser functions
     for ki, kn in enumerate(["link", "template", "arg", "parserfn"]):
         for n_prev in (0, 1, 2):
@@ -273,6 +284,7 @@ def run(rep: C.Report) -> None:
             H,
             {
                 "^t_": dict(name="Ob2 table one-step lemmas (|-  |  !  ||  !!  |+  |})", functions=["parser.py:table_row_fn", "parser.py:table_cell_fn", "parser.py:table_hdr_cell_fn", "parser.py:double_vbar_fn", "parser.py:table_caption_fn", "parser.py:table_end_fn"], bounds="all table states with <= 2 closed cells of symbolic kind, optional open cell of symbolic kind with one symbolic content char, optional caption"),
+                "^nest_": dict(name="Ob7 beginning-of-line syntax stays disabled while any argument list is being re-parsed (nesting of the disable manager)", functions=["core.py:BegLineDisableManager"], bounds="all well-nested enter/exit sequences of length 6"),
                 "^vargs_": dict(name="Ob6 `|` inside a link / template / parameter reference / parser function closes the current argument (arguments accumulate in written order)", functions=["parser.py:vbar_fn"], bounds="4 node kinds x 0..2 earlier arguments x current argument text of 1..2 symbolic chars"),
                 "^place_": dict(name="Ob5 attributes written on a table, a row or a cell become that node's attribute map", functions=["parser.py:table_check_attrs", "parser.py:table_row_check_attrs", "parser.py:table_cell_fn (attribute separator)", "parser.py:check_for_attributes"], bounds="one attribute, name 1 char, value 1..2 (thorough 3) symbolic URL-safe chars, three quoting styles; data and header cells"),
                 "^attr_": dict(name="Ob1 parse_attrs returns exactly the written attribute map", functions=["parser.py:parse_attrs"], bounds=f"name 1..2 chars over [ab-], value 0..{2 if quick else 3} chars over URL-safe characters, double-quoted / single-quoted / bare; two attributes with symbolic separator"),
